@@ -595,7 +595,7 @@ def execute(harness, prefix: list[int], max_points: int = 4000, horizon: float =
     """One execution of `harness` under choice prefix `prefix` (defaults afterwards)."""
     global _current_run
     r = Run(prefix, set(harness.focus), max_points, horizon)
-    if sync_log:
+    if sync_log or getattr(harness, "sync_log", False):
         r.sync_log = []
     _current_run = r
 
